@@ -34,6 +34,15 @@ class Timeout(Exception):
     pass
 
 
+class ImplementationHangs(Exception):
+    """a binary built from the implementation's own runtime did not finish, within a generous limit, a batch of inputs the unchanged
+    implementation finishes in well under a second: a failing input (carried in `case`), not a timeout of the check"""
+
+    def __init__(self, what, case):
+        super().__init__(what)
+        self.what, self.case = what, case
+
+
 def sha(obj) -> str:
     return hashlib.sha256(json.dumps(obj, sort_keys=True, default=str).encode()).hexdigest()[:16]
 
